@@ -125,7 +125,7 @@ func cycleFactors(s ref.State, img *mem.Image) (op byte, pcross, rel8, taken, bc
 }
 
 func C12(r *vf.Run) {
-	r.Rule = "(a) cycle-factor sweep on both interpreters: a state is constructed for every opcode x (E,M,X) x DL!=0 x index page-cross x branch {not taken, taken, taken across a page} and the accounting equalities asserted (cycles >= 1, AllCycles advances by exactly the returned value, stopped iff STP executed, sticky until Reset); (b) twin replay of System.RunUntil against a literal single-stepping specification over generated (program, target, budget) cases, comparing state, AllCycles, memory, return value and Logger.Write count; (c) OnPC callbacks counted against instruction fetches at their address - on fresh CPUs and on one reused CPU whose callback set is moved, replaced, grown, shrunk and self-re-armed between runs - and OnWDM operand on both interpreters. A cell is (opcode, E, M, X, DL, page-cross, branch outcome) for (a) and (stop reason, budget class, target class) for (b)"
+	r.Rule = "(a) cycle-factor sweep on both interpreters: a state is constructed for every opcode x (E,M,X) x DL!=0 x index page-cross x branch {not taken, taken, taken across a page} and the accounting equalities asserted, also with an interrupt request pending on entry (cycles >= 1, AllCycles advances by exactly the returned value, stopped iff STP executed, sticky until Reset); (b) twin replay of System.RunUntil against a literal single-stepping specification over generated (program, target, budget) cases, comparing state, AllCycles, memory, return value and Logger.Write count; (c) OnPC callbacks counted against instruction fetches at their address - on fresh CPUs and on one reused CPU whose callback set is moved, replaced, grown, shrunk and self-re-armed between runs - and OnWDM operand on both interpreters. A cell is (opcode, E, M, X, DL, page-cross, branch outcome) for (a) and (stop reason, budget class, target class) for (b)"
 	r.Assume = []string{"cpualt declares OnPC but implements no program-counter callback and has no RunUntil: judged on Step accounting and OnWDM only", "termination is decided on logical counts (iterations <= budget), never on wall-clock time"}
 	ncpu := runtime.NumCPU()
 	var zeroCycle int32
@@ -211,6 +211,13 @@ func C12(r *vf.Run) {
 								w.rig.loadAltFromPrim()
 								a0 := g.U64() >> uint(g.Intn(40))
 								w.rig.prim.AllCycles, w.rig.alt.AllCycles = a0, a0
+								irq := ""
+								if v%4 == 3 || (variants < 4 && g.Intn(4) == 0) {
+									// an interrupt request is pending when Step is entered (TriggerIRQ / NMI)
+									kind := byte(2 + g.Intn(2))
+									w.rig.prim.Interrupt, w.rig.alt.Interrupt = kind, kind
+									irq = ":irq-pending"
+								}
 								rp := w.rig.stepPrim(mp)
 								ra := w.rig.stepAlt(ma)
 								r.Eval(2)
@@ -235,12 +242,15 @@ func C12(r *vf.Run) {
 									if side.all != a0+uint64(side.res.cycles) {
 										r.Fail("allcycles-accounting:"+side.who, fmt.Sprintf("%s: %s returned %d cycles but AllCycles went %d -> %d (%s)", side.who, opName(op), side.res.cycles, a0, side.all, cell), det())
 									}
-									wantStop := op == 0xDB
-									if side.res.stopped != wantStop || side.stoppedFl != wantStop {
+									wantStop := op == 0xDB && irq == "" // with an interrupt serviced first another instruction runs
+									if irq == "" && (side.res.stopped != wantStop || side.stoppedFl != wantStop) {
 										r.Fail("stopped-flag:"+side.who, fmt.Sprintf("%s: after %s Step stopped=%v CPU.Stopped=%v", side.who, opName(op), side.res.stopped, side.stoppedFl), det())
 									}
 								}
 								w.cells[cell]++
+								if irq != "" {
+									w.cells["accounting:irq-pending"]++
+								}
 							}
 						}
 					}
@@ -746,7 +756,7 @@ func C12(r *vf.Run) {
 			r.Require(fmt.Sprintf("op%02x:e0:mx0:dl1:pc0:br%d", op, br))
 			r.Require(fmt.Sprintf("op%02x:e1:mx3:dl0:pc0:br%d", op, br))
 		}
-		for _, c := range []string{"opbd:e0:mx3:dl0:pc1:br0", "opb1:e0:mx3:dl1:pc1:br0", "opd0:e0:mx0:dl0:pc0:br2", "opd0:e1:mx3:dl0:pc0:br1", "onpc:hit", "onpc:never", "onwdm:seen"} {
+		for _, c := range []string{"opbd:e0:mx3:dl0:pc1:br0", "opb1:e0:mx3:dl1:pc1:br0", "opd0:e0:mx0:dl0:pc0:br2", "opd0:e1:mx3:dl0:pc0:br1", "onpc:hit", "onpc:never", "onwdm:seen", "accounting:irq-pending"} {
 			r.Require(c)
 		}
 		for _, s := range []string{"run:target:", "run:budget:", ":zero:", ":one:", ":already-there", ":other-bank", ":first+-1:", ":prefix+-1:"} {
